@@ -10,6 +10,16 @@ THEOREMS = ["EngineModel.Properties.C03." + t for t in [
     "C03_v2_track_roundtrip", "C03_v2_beat_roundtrip", "C03_v2_ovw_roundtrip",
     "C03_v2_cues_roundtrip", "C03_v2_cues_reject", "C03_v2_loops_roundtrip", "C03_v2_loops_reject",
     "C03_v2_track_total", "C03_v2_beat_total", "C03_v2_ovw_total",
+    "C03_v1_track_readback", "C03_v1_track_roundtrip_partial", "C03_v1_track_roundtrip_counterexample",
+    "C03_v1_track_total", "C03_v1_beat_readback", "C03_v1_beat_roundtrip_partial",
+    "C03_v1_beat_roundtrip_counterexample", "C03_v1_beat_reject", "C03_v1_cues_readback",
+    "C03_v1_cues_roundtrip", "C03_v1_cues_reject", "C03_v1_loops_readback",
+    "C03_v1_loops_roundtrip", "C03_v1_loops_reject", "C03_absent_only_reserved",
+    "C03_v1_ovw_readback", "C03_v1_ovw_roundtrip", "C03_v1_hires_roundtrip",
+    "C03_compress_complete", "C03_compress_avail_in_condition_counterexample",
+    "C03_compress_empty_ub", "C03_compress_input_nonempty", "C03_compress_chunk_schedule",
+    "C03_compress_chunk_plan", "C03_compress_finish_only_last", "C03_compress_remaining_counter_counterexample",
+    "C03_uncompress_compress",
 ]]
 ASSUMPTIONS = [
     "payload level: the zlib framing is covered by C02/C05 (the tie compares uncompressed payloads, which the harness "
@@ -23,7 +33,16 @@ MANIFEST = dict(
          "double bit patterns, all integers, labels of 0..255 arbitrary bytes, any number of entries, any extra_data; no "
          "size bound) the Model decoder returns exactly the value from the Model encoder's bytes; every representable "
          "value outside the encodable domain makes the encoder throw (never other bytes, never undefined behaviour); for "
-         "schema 1.x the only present cue/loop that reads back absent has offset exactly -1.0. The Model is tied to the "
+         "schema 1.x the only present cue/loop that reads back absent has offset exactly -1.0 and the read-back value is "
+         "stated exactly (zero optional fields read back absent: known finding with _partial/_counterexample); the "
+         "zlib_compress loops, modelled over an abstract deflate oracle with an explicit call contract, provably collect "
+         "all output of all calls, consume the whole payload and stop only after Z_FINISH answered Z_STREAM_END; the "
+         "input-chunking decision is in the Model exactly as the C++ makes it and it is proved, for every oracle and every "
+         "payload length (exact multiples of 16384 included), that the call log follows chunkPlan(length) and that the "
+         "last window and only the last carries Z_FINISH; zlib_uncompress(zlib_compress p) = p under the joint zlib "
+         "contract (recorded deflate() calls of the real library — payload sizes k*16384-1/0/+1 of every compressed kind, "
+         "deflate output of exactly j*16384 bytes — are judged against the chunk plan and replayed through that Model "
+         "every run). The Model is tied to the "
          "working tree on every run: generated values are encoded and decoded by the real library (sanitizer build) and "
          "by the Model, payloads and results compared byte for byte, and a direct oracle states decode(encode v) = v on "
          "the library's own answers.",
@@ -36,6 +55,15 @@ TRUSTED_EXTRA = []
 
 KNOWN_ZERO_SIG = {"family": "v1", "codec": "track_data/beat_data",
                   "effect": "optional numeric field holding exactly zero is written as the absent encoding and reads back absent"}
+
+
+# model regenerated from the C++ sources + its equality with the hand model (see props/_implgen.py)
+from props import _implgen
+LEAN_MODULES = LEAN_MODULES + _implgen.LEAN_MODULES
+THEOREMS = THEOREMS + _implgen.THEOREMS_FOR[ID]
+ASSUMPTIONS = ASSUMPTIONS + _implgen.ASSUMPTIONS
+TRUSTED_EXTRA = list(globals().get("TRUSTED_EXTRA", [])) + _implgen.TRUSTED_EXTRA
+TRANSLATORS = dict(globals().get("TRANSLATORS", {}), **_implgen.TRANSLATORS)
 
 
 def must_roundtrip(kind, v):
@@ -55,6 +83,148 @@ def run_both(lines, watchdog=20):
     return hout, mout
 
 
+chunk_plan, follows_plan = cd.chunk_plan, cd.follows_plan
+
+
+def compress_trace_stream(rng, tier, vals, henc, hist, divergences, violations):
+    """zlib_compress on payloads of every interesting size class: 0 (the `&uncompressed[0]` precondition), 1, small,
+    k*16384-1 / k*16384 / k*16384+1 for k = 1..4, compressible and incompressible; every chunk-boundary payload the
+    library itself produced (all compressed kinds); and a scan for deflate OUTPUT of exactly j*16384 bytes.  The
+    link-time wrapper records every deflate() call.  Oracle on the library's own trace: an independent inflate
+    recovers the payload, blob length = 4 + all produced bytes, the last call is a Z_FINISH call answering
+    Z_STREAM_END, the whole payload was consumed, and the calls follow the input-chunking plan (the last window and
+    only the last carries Z_FINISH).  Model: the Lean loops, run against the recorded answers (`zreplay`), must make
+    exactly the recorded calls."""
+    pays, origin = [], []
+    raw_sizes = [1, 2, 8, 100, 20000, 40000] + [k * cd.CHUNK + d for k in (1, 2, 3, 4) for d in (-1, 0, 1)] + \
+                ([100000, 70000] if tier == "thorough" else [50000])
+    for n in raw_sizes:
+        for sty in (("noise", "zeros", "text") if (tier == "thorough" or n <= 2 * cd.CHUNK + 1) else
+                    (("noise", "zeros", "text")[n % 3],)):
+            pays.append(cd._bytes_like(rng, n, sty))
+            origin.append("raw")
+            if cd.is_chunk_boundary(n):
+                key = "ztrace_boundary:raw:%s" % cd.boundary_label(n)
+                hist[key] = hist.get(key, 0) + 1
+    # payloads the library itself produced on the chunk boundary (every compressed kind), plus a few other big ones
+    others = 0
+    for (k, v), h in zip(vals, henc):
+        t = h.split()
+        if not (len(t) >= 3 and t[0] == "ok" and t[1] not in ("UNFRAMED", "-")) or k in cd.RAW_KINDS:
+            continue
+        n = len(t[1]) // 2
+        if cd.is_chunk_boundary(n):
+            pays.append(bytes.fromhex(t[1]))
+            origin.append(k)
+            key = "ztrace_boundary:%s:%s" % (k, cd.boundary_label(n))
+            hist[key] = hist.get(key, 0) + 1
+        elif n > 15000 and others < 12:
+            others += 1
+            pays.append(bytes.fromhex(t[1]))
+            origin.append(k)
+    # --- deflate OUTPUT on the buffer boundary: noise prefixes whose zlib stream is j*16384 bytes give or take a few
+    # (stored blocks: the stream grows by one byte per payload byte), so that a deflate() call fills the 16384-byte
+    # output buffer exactly when the stream ends.
+    import zlib
+    noise = rng.randbytes(4 * cd.CHUNK + 64)
+    scan = []
+    for j in ((1, 2) if tier == "quick" else (1, 2, 3, 4)):
+        n0 = None
+        for n in range(j * cd.CHUNK - 64, j * cd.CHUNK + 1):
+            if len(zlib.compress(noise[:n])) == j * cd.CHUNK:
+                n0 = n
+                break
+        centre = n0 if n0 is not None else j * cd.CHUNK - 11 - 5 * j
+        width = 3 if n0 is not None else 24
+        for n in range(centre - width, centre + width + 1):
+            scan.append((j, len(pays)))
+            pays.append(noise[:n])
+            origin.append("scan")
+    lines = ["ztrace -"] + ["ztrace " + cd.hexb(p) for p in pays]
+    hz = [o for (outs, _) in runner.run_harness(runner.shard(lines, NCPU), stateless=True, watchdog=20) for o in outs]
+    rep = ["zreplay 0"]
+    for p, h in zip(pays, hz[1:]):
+        t = h.split()
+        rep.append("zreplay %d %s" % (len(p), " ".join(t[4:])) if len(t) >= 4 and t[0] == "ok" else "#skip")
+    mz = [o for outs in runner.run_model(runner.shard(rep, NCPU)) for o in outs]
+    # the empty payload: `&uncompressed[0]` on an empty vector (C03_compress_empty_ub); no codec produces it
+    hist["ztrace:empty_payload impl=%s model=%s" % (hz[0].replace(" ", "_")[:24], mz[0].replace(" ", "_")[:24])] = 1
+    if hz[0] != mz[0]:
+        divergences.append({"input": lines[0], "impl": hz[0][:200], "model": mz[0][:200]})
+    traces = {}
+    for idx, (p, l, h, r, m) in enumerate(zip(pays, lines[1:], hz[1:], rep[1:], mz[1:])):
+        t = h.split()
+        cls = "other"
+        if len(t) >= 4 and t[0] == "ok":
+            calls = [tuple(int(x) for x in c.split(":")) for c in t[4:]]
+            traces[idx] = calls
+            blen = int(t[2].split("=")[1])
+            why = cd.judge_ztrace(len(p), h)
+            cls = "calls=%d" % len(calls)
+            hist["ztrace:finish_calls=%d" % sum(1 for c in calls if c[0] == 4)] = \
+                hist.get("ztrace:finish_calls=%d" % sum(1 for c in calls if c[0] == 4), 0) + 1
+            hist["ztrace:windows=%d" % len(chunk_plan(len(p)))] = hist.get("ztrace:windows=%d" % len(chunk_plan(len(p))), 0) + 1
+            if why:
+                violations.append({"tag": "oracle", "signature": None,
+                                   "header": {"kind": "input", "what": "%s (payload of %d bytes, %s)" % (why, len(p), origin[idx])},
+                                   "body": [l, "impl: " + h[:400]]})
+            want = "ok len=%d calls=%d%s" % (blen, len(calls), "".join(" " + c for c in t[4:]))
+            if m != want:
+                divergences.append({"input": r[:400], "impl": want[:300], "model": m[:300]})
+        elif not h.startswith("throw"):
+            violations.append({"tag": "oracle", "signature": None,
+                               "header": {"kind": "input", "what": "zlib_compress crashed: " + h},
+                               "body": [l, "impl: " + h[:300]]})
+        hist["ztrace:" + cls] = hist.get("ztrace:" + cls, 0) + 1
+    # --- how close did deflate's OUTPUT come to the 16384-byte buffer boundary
+    full, full_then_empty, gaps = 0, 0, []
+    for calls in traces.values():
+        for a, b in zip(calls, calls[1:] + [None]):
+            if a[3] == cd.CHUNK:
+                full += 1
+                if b is not None and b[3] == 0:
+                    full_then_empty += 1
+            elif a[3] > 0:
+                gaps.append(cd.CHUNK - a[3])
+    hist["out_buffer:calls that filled the 16384-byte buffer"] = full
+    hist["out_buffer:buffer filled exactly as the stream ended (next call produced 0)"] = full_then_empty
+    if gaps:
+        hist["out_buffer:smallest gap of a non-full call (bytes short of 16384)"] = min(gaps)
+    for j, idx in scan:
+        if idx in traces:
+            d = sum(c[3] for c in traces[idx]) - j * cd.CHUNK
+            key = "out_buffer:scan j=%d stream_len-j*16384=%+d" % (j, d)
+            hist[key] = hist.get(key, 0) + 1
+    # --- the blobs of the scan (compressed part j*16384-3 .. +3 bytes) back through the library's own
+    # zlib_uncompress (its INPUT chunking: `(ptr + chunk_size) < end`) and the Model
+    zl = ["z " + cd.hexb(pays[idx]) for (_, idx) in scan]
+    hzz = [o for (outs, _) in runner.run_harness(runner.shard(zl, NCPU), stateless=True, watchdog=20) for o in outs] if zl else []
+    ul, uidx = [], []
+    for (j, idx), h in zip(scan, hzz):
+        t = h.split()
+        if len(t) == 3 and t[0] == "ok" and t[1] == "framed":
+            ul.append("unz " + t[2])
+            uidx.append(idx)
+        else:
+            violations.append({"tag": "oracle", "signature": None,
+                               "header": {"kind": "input", "what": "zlib_compress output is not a complete stream: " + h[:60]},
+                               "body": ["z " + cd.hexb(pays[idx]), "impl: " + h[:300]]})
+    if ul:
+        hu, mu = run_both(ul)
+        for l, idx, a, b in zip(ul, uidx, hu, mu):
+            if a != b:
+                divergences.append({"input": l[:400], "impl": a[:200], "model": b[:200]})
+            if a != "ok " + cd.hexb(pays[idx]):
+                violations.append({"tag": "oracle", "signature": None,
+                                   "header": {"kind": "input", "what": "zlib_uncompress does not recover what zlib_compress wrote"},
+                                   "body": [l, "impl: " + a[:300]]})
+            d = len(l.split()[1]) // 2 - 4
+            j = (d + cd.CHUNK // 2) // cd.CHUNK
+            key = "uncompress_input:compressed_len=%d*16384%+d" % (j, d - j * cd.CHUNK)
+            hist[key] = hist.get(key, 0) + 1
+    return len(lines) + len(rep) + len(zl) + 2 * len(ul)
+
+
 def tie(ctx):
     rng = random.Random(ctx.seed * 15485863 + 3)
     hist = {}
@@ -63,6 +233,8 @@ def tie(ctx):
     henc, menc = run_both(enc_lines)
     divergences, violations = [], []
     dec_lines, dec_idx = [], []
+    decz_lines, decz_idx = [], []
+    unframed = set()
     for i, (k, v) in enumerate(vals):
         h, m = henc[i], menc[i]
         ht = h.split()
@@ -73,12 +245,24 @@ def tie(ctx):
         if ht and ht[0] == "ok" and len(ht) >= 2 and ht[1] != "UNFRAMED":
             dec_lines.append("dec %s %s" % (k, ht[1]))
             dec_idx.append(i)
+        if ht and ht[0] == "ok" and len(ht) >= 2 and ht[1] == "UNFRAMED":
+            unframed.add(i)
+        # the library's own blob, framing included, through the library's own from_blob / decode
+        if ht and ht[0] == "ok" and len(ht) >= 3 and k not in cd.RAW_KINDS:
+            decz_lines.append("decz %s %s" % (k, ht[2]))
+            decz_idx.append(i)
     hdec, mdec = run_both(dec_lines) if dec_lines else ([], [])
     decoded = {}
     for j, i in enumerate(dec_idx):
         decoded[i] = hdec[j]
         if hdec[j] != mdec[j]:
             divergences.append({"input": dec_lines[j][:400], "impl": hdec[j][:200], "model": mdec[j][:200]})
+    hdz, mdz = run_both(decz_lines) if decz_lines else ([], [])
+    decodedz = {}
+    for j, i in enumerate(decz_idx):
+        decodedz[i] = hdz[j]
+        if hdz[j] != mdz[j]:
+            divergences.append({"input": decz_lines[j][:400], "impl": hdz[j][:200], "model": mdz[j][:200]})
     # ---- direct oracle on the implementation's own answers
     distinct = set()
     cls = {"roundtrip_ok": 0, "rejected": 0, "absent_by_neg1": 0}
@@ -90,7 +274,13 @@ def tie(ctx):
         if h.startswith("ok"):
             want = "ok " + cd.expected_readback(k, v)
             got = decoded.get(i, "(payload not recoverable: %s)" % h[:40])
-            if got != want:
+            gotz = decodedz.get(i, got)
+            if i in unframed:
+                why = ("the blob the library wrote is not a complete zlib stream of its payload: its own encoding "
+                       "cannot be decoded " + cd.size_note(k, h.split()[2] if len(h.split()) > 2 else ""))
+            elif got == want and gotz != want:
+                why = "the library cannot decode its own stored blob (framing included) to the value written: " + gotz[:80]
+            elif got != want:
                 if cd.zero_optional(k, v):
                     sig = KNOWN_ZERO_SIG
                     why = "1.x optional field holding zero read back absent"
@@ -114,10 +304,14 @@ def tie(ctx):
         if why:
             violations.append({"tag": "oracle", "signature": sig,
                                "header": {"kind": "input", "what": why},
-                               "body": [enc_lines[i], "impl: " + h[:300]] +
-                                       (["dec %s %s" % (k, h.split()[1]), "impl: " + decoded.get(i, "-")[:300],
+                               "body": [enc_lines[i][:200000], "impl: " + h[:300]] +
+                                       (["decz %s %s" % (k, h.split()[2]) if i in unframed or decodedz.get(i) != decoded.get(i)
+                                         else "dec %s %s" % (k, h.split()[1]),
+                                         "impl: " + decodedz.get(i, decoded.get(i, "-"))[:300],
                                          "want: ok " + cd.expected_readback(k, v)[:300]]
-                                        if h.startswith("ok") and len(h.split()) > 1 else [])})
+                                        if h.startswith("ok") and len(h.split()) > 2 else [])})
+    # ---- the compression loops: recorded deflate() calls of the real library replayed through the Model
+    zt = compress_trace_stream(rng, ctx.tier, vals, henc, hist, divergences, violations)
     # one KNOWN-FINDING line is enough: keep at most one violation per known signature
     seen_sig, vout = set(), []
     for v in violations:
@@ -131,7 +325,7 @@ def tie(ctx):
     unknown = [v for v in vout if v["signature"] is None]
     return {
         "ok": not divergences and not unknown,
-        "evaluations": len(enc_lines) + len(dec_lines),
+        "evaluations": len(enc_lines) + len(dec_lines) + len(decz_lines) + zt,
         "distinct_nontrivial": len(distinct),
         "rule": "seeded values of all 11 kinds (every double class incl. -0/inf/NaN payloads/subnormals/-1.0, int64/int32 "
                 "edges, labels of every length 0..300 with arbitrary bytes, 0..12 entries, grids, waveforms, extra_data); "
@@ -141,5 +335,9 @@ def tie(ctx):
         "samples": [enc_lines[0][:200], enc_lines[len(enc_lines) // 2][:200], enc_lines[-1][:200]],
         "histograms": hist,
         "divergences": divergences[:20],
-        "violations": vout[:8],
+        "violations": cd.diverse(vout),
     }
+
+
+replay = cd.replay
+tie = _implgen.wrap_tie(tie)   # + regenerated model vs real library (translator validation)
